@@ -123,6 +123,15 @@ CHECKS = {
              "(evaluation trace, exception class, name carried by file_not_found_error).",
         note="the use() model is mine (documented first-hit search, once per resolved path); real files under /verif/.build/work",
         design="4/C19"),
+    "C20": dict(
+        engine="hypothesis-runner",
+        category="exploration",
+        technique="property-based testing with a layout engine as oracle: generated multi-chunk programs with one injected fault at a generator-known (file, line, column, call depth)",
+        text="Programs spread over files and named eval() chunks with random comments, blank lines, tabs, LF/CRLF and call sites in many syntactic "
+             "positions carry exactly one fault; call_stack[0] must be the failing construct's position and the Fun_Call entries must be, innermost "
+             "first, exactly the generated call sites with their own file, line and column.",
+        note="positions come from the generator's own byte-accurate layout; only start positions and file names are compared",
+        design="4/C20"),
 }
 
 PENDING_REASON = "check not built yet in this round (planned, see DESIGN.md section 4); not claimed until its machinery exists and is calibrated"
